@@ -304,6 +304,14 @@ def _magnetic(ctx, F):
     perm = {"j2": (D, c, C, b, B, a, A), "j4": (B, a, A, b, C, c, D), "j6": (C, c, B, b, A, a, D)}
     w.set(m, j0=(A, a, B, b, C, c, D), **perm)
     eq(ctx, "R4", "M_Q evaluates <j0>", I.call(I.getattr(m, "M_Q"), [q], {}), expr, site)
+    eq(ctx, "R4", "j0_Q evaluates <j0>", I.call(I.getattr(m, "j0_Q"), [q], {}), expr, site)
+    w.set(m, J=(B, a, A, c, C, b, D))
+    rrJ = raises(lambda: I.call(I.getattr(m, "J_Q"), [q], {}))
+    if rrJ is not None or I.call(I.getattr(m, "J_Q"), [q], {}) is None:
+        ctx.fail("R4", "J_Q evaluates <J> (no s^2 factor)", f"raises {rrJ}" if rrJ else "returns None", site)
+    else:
+        eq(ctx, "R4", "J_Q evaluates <J> (no s^2 factor)", I.call(I.getattr(m, "J_Q"), [q], {}),
+           B * sp.exp(-a * s2) + A * sp.exp(-c * s2) + C * sp.exp(-b * s2) + D, site)
     eq(ctx, "R4", "M is <j0>", sum(I.getattr(m, "M")), A + a + B + b + C + c + D, site)
     for jn, (c1, e1, c2, e2, c3, e3, c4) in perm.items():
         want = s2 * (c1 * sp.exp(-e1 * s2) + c2 * sp.exp(-e2 * s2) + c3 * sp.exp(-e3 * s2) + c4)
@@ -343,7 +351,7 @@ def _magnetic(ctx, F):
               f"{badl[:3]}", "periodictable/magnetic_ff.py CFML_DATA", sample={"lines": n})
     ctx.check(not j0bad, "R4", "every <j0> form factor is 1 at Q = 0 within 0.5 % (A+B+C+D)", f"{j0bad[:5]}",
               "periodictable/magnetic_ff.py CFML_DATA")
-    ctx.floor("R4", 40)
+    ctx.floor("R4", 42)
 
 
 # ------------------------------------------------------------------------------- Cromer-Mann
